@@ -22,7 +22,7 @@ const IGNORE: &[&str] = &[
     "type_name", "default", "empty", "as_any_cache", "_as_any_cache", "from_type", "parent", "components", "strip_prefix", "to_str", "file_stem",
     "is_dir", "is_file", "join", "reset", "is_hot_reloaded", "reloader", "assets", "get_source", "to_vec", "add", "size_of_val", "for_value",
     "type_id_of", "matches", "Layout", "from_size_align_unchecked", "extend_layout", "unwrap_unchecked", "borrowed", "into_owned", "get_inner_layout",
-    "handle_alloc_error", "as_bytes", "borrow", "into_boxed_slice", "needs_drop", "Self", "Record", "NonNull", "path", "kind", "starts_with", "push_str", "rfind",
+    "handle_alloc_error", "yield_point", "as_bytes", "borrow", "into_boxed_slice", "needs_drop", "Self", "Record", "NonNull", "path", "kind", "starts_with", "push_str", "rfind",
 ];
 
 const LOCKS: &[&str] = &["read", "write", "lock", "borrow", "borrow_mut", "try_read", "try_write", "try_lock"];
